@@ -509,5 +509,87 @@ pub fn run(ctx: Ctx, replay: Option<PathBuf>) -> i32 {
         }
         idx0 = hi;
     }
+    if ctx.tier == crate::core::Tier::Thorough || std::env::var("VERIF_FUZZ").is_ok() {
+        fuzz_stage(&ctx, &mut ck, &corpus, &mut reported);
+    }
     ck.finish()
+}
+
+/// E7: coverage-guided stage (thorough tier): libFuzzer drives the whole
+/// pipeline in process (fuzz/fuzz_targets/grammar_text.rs, oracle "never
+/// panics", known panic messages allow-listed); every crash artifact and every
+/// coverage-increasing input it keeps is then judged by the same CLI oracle as
+/// the generated cases, so a crash becomes an ordinary, minimised replay file.
+fn fuzz_stage(ctx: &Ctx, ck: &mut Checker, corpus: &[CorpusFile], reported: &mut std::collections::BTreeSet<String>) {
+    let fuzz_dir = ctx.root.join("fuzz");
+    if !fuzz_dir.join("Cargo.toml").exists() {
+        ck.skip("fuzz stage: fuzz/ crate missing");
+        return;
+    }
+    let cdir = ctx.work.join("fuzz_corpus");
+    let adir = ctx.work.join("fuzz_artifacts");
+    let _ = std::fs::create_dir_all(&cdir);
+    let _ = std::fs::create_dir_all(&adir);
+    for (i, f) in corpus.iter().filter(|f| f.text.len() <= 2048).enumerate() {
+        let _ = std::fs::write(cdir.join(format!("seed{i}.lalrpop")), &f.text);
+    }
+    let runs = std::env::var("VERIF_FUZZ_RUNS").ok().and_then(|s| s.parse::<u64>().ok()).unwrap_or(400_000);
+    let target = ctx.root.join("target").join("fuzz");
+    let out = crate::run::Cmd::new("cargo")
+        .args(["+nightly", "fuzz", "run", "-s", "none", "--fuzz-dir"])
+        .arg(&fuzz_dir)
+        .arg("--target-dir")
+        .arg(&target)
+        .arg("grammar_text")
+        .arg(&cdir)
+        .arg("--")
+        .arg(format!("-runs={runs}"))
+        .arg(format!("-seed={}", (ctx.seed % 0x7fff_ffff) + 1))
+        .args(["-max_len=2048", "-close_fd_mask=3", "-timeout=60", "-rss_limit_mb=2048"])
+        .arg(format!("-artifact_prefix={}/", adir.display()))
+        .env("CARGO_NET_OFFLINE", "true")
+        .timeout_s(6 * 3600)
+        .run();
+    ck.class("fuzz_stage_runs_requested");
+    ck.extra.insert("libfuzzer_runs".into(), json!(runs));
+    ck.extra.insert("libfuzzer_exit".into(), json!(format!("{:?}", out.exit)));
+    if out.stderr.contains("error: could not compile") || out.stderr.contains("could not find `Cargo.toml`") {
+        ck.infra(format!("fuzz stage: the libFuzzer target did not build: {}", head(&out.stderr, 600)));
+        return;
+    }
+    // judge crash artifacts and the corpus libFuzzer built, through the CLI oracle
+    let mut inputs: Vec<(String, Vec<u8>)> = vec![];
+    for (dir, tag) in [(&adir, "libfuzzer-artifact"), (&cdir, "libfuzzer-corpus")] {
+        if let Ok(rd) = std::fs::read_dir(dir) {
+            let mut names: Vec<_> = rd.filter_map(|e| e.ok()).map(|e| e.path()).collect();
+            names.sort();
+            for p in names {
+                if p.file_name().map_or(false, |n| n.to_string_lossy().starts_with("seed")) {
+                    continue;
+                }
+                if let Ok(b) = std::fs::read(&p) {
+                    inputs.push((tag.to_string(), b));
+                }
+            }
+        }
+    }
+    ck.extra.insert("libfuzzer_inputs_judged".into(), json!(inputs.len()));
+    let verdicts = par_map(&inputs, ctx.threads, |i, (_, b)| evaluate(ctx, &ctx.work.join(format!("f{i}")), b, &[], 60));
+    for ((tag, bytes), v) in inputs.iter().zip(verdicts) {
+        ck.eval();
+        ck.class(&format!("{}:{}", tag, v.class));
+        if v.reached_norm {
+            ck.nontrivial(bytes);
+        }
+        if let Some((sig, what)) = v.failure.clone() {
+            let case = Case { gen: "libfuzzer", bytes: bytes.clone(), args: vec![], label: tag.clone(), tape: vec![] };
+            if ck.is_known(&sig) || !reported.insert(sig.clone()) {
+                ck.violation(&sig, &what, json!({}));
+                continue;
+            }
+            let (mc, min) = if sig.starts_with("C18/hang") { (case.clone(), bytes.clone()) } else { minimise(ctx, &case, &sig) };
+            let rj = replay_json(&mc, &v, &min, bytes.len());
+            ck.violation(&sig, &what, rj);
+        }
+    }
 }
